@@ -22,6 +22,10 @@ type FaultStore struct {
 	Calls   int
 	Loads   map[string]int
 	failMsg string
+	// what the call that was made to fail was about
+	FiredKind string // "add" | "remove" | "clear" | "delete"
+	FiredLoc  string
+	FiredKey  string
 }
 
 var ErrInjected = errors.New("injected storage failure")
@@ -70,7 +74,7 @@ func (s *FaultStore) snapshot() map[string]map[string]string {
 }
 
 // before a mutating call: maybe fail it
-func (s *FaultStore) gate() error {
+func (s *FaultStore) gate(kind, loc, key string) error {
 	s.mu.Lock()
 	defer s.mu.Unlock()
 	s.Calls++
@@ -78,6 +82,7 @@ func (s *FaultStore) gate() error {
 		s.failIn--
 		if s.failIn == 0 {
 			s.Fired = true
+			s.FiredKind, s.FiredLoc, s.FiredKey = kind, loc, key
 			return ErrInjected
 		}
 	}
@@ -104,7 +109,7 @@ func (s *FaultStore) Load(ctx *core.Context, loc string) ([]core.Pair, error) {
 }
 
 func (s *FaultStore) Add(ctx *core.Context, loc string, data *core.Pair) error {
-	if err := s.gate(); err != nil {
+	if err := s.gate("add", loc, string(data.K)); err != nil {
 		return err
 	}
 	err := s.Inner.Add(ctx, loc, data)
@@ -113,7 +118,7 @@ func (s *FaultStore) Add(ctx *core.Context, loc string, data *core.Pair) error {
 }
 
 func (s *FaultStore) Remove(ctx *core.Context, loc string, k []byte) (int64, error) {
-	if err := s.gate(); err != nil {
+	if err := s.gate("remove", loc, string(k)); err != nil {
 		return 0, err
 	}
 	n, err := s.Inner.Remove(ctx, loc, k)
@@ -122,7 +127,7 @@ func (s *FaultStore) Remove(ctx *core.Context, loc string, k []byte) (int64, err
 }
 
 func (s *FaultStore) Clear(ctx *core.Context, loc string) (int64, error) {
-	if err := s.gate(); err != nil {
+	if err := s.gate("clear", loc, ""); err != nil {
 		return 0, err
 	}
 	n, err := s.Inner.Clear(ctx, loc)
@@ -131,7 +136,7 @@ func (s *FaultStore) Clear(ctx *core.Context, loc string) (int64, error) {
 }
 
 func (s *FaultStore) Delete(ctx *core.Context, loc string) error {
-	if err := s.gate(); err != nil {
+	if err := s.gate("delete", loc, ""); err != nil {
 		return err
 	}
 	err := s.Inner.Delete(ctx, loc)
